@@ -12,6 +12,12 @@ def main():
     n = int(sys.argv[2]) if len(sys.argv) > 2 else 300
     seed = int(sys.argv[3]) if len(sys.argv) > 3 else 1
     spec = PROPS["C15"]
+    ok, o = run.run_translators()
+    if not ok:
+        print(o)
+    rc, mo = run.coq_build()
+    if rc != 0:
+        print(mo[-3000:])
     ov = run.make_overlay(spec["go"])
     for g in spec["go"]:
         if g["test"] != test:
